@@ -107,7 +107,7 @@ def main():
     try:
         bins = R.binaries()
         specs = {
-            "async": C43.DIRECTED[5][1], "mutex": C43.DIRECTED[0][1], "iprobe": C43.DIRECTED[8][1], "waitany": C43.DIRECTED[6][1],
+            "async": C43.DIRECTED[5][1], "mutex": C43.DIRECTED[0][1], "iprobe": C43.DIRECTED[9][1], "waitany": C43.DIRECTED[6][1],
             "mutex3": "mutex 1\nactor L0 U0\nactor L0 U0\nactor L0 T0 U0\n",
         }
         logs = {}
@@ -131,7 +131,7 @@ def main():
           lambda t: sub_line(t, isC("MUTEX_TRYLOCK"), lambda l: l.replace("| MUTEX_TRYLOCK ", "| MUTEX_ASYNC_LOCK ", 1)), "C43:type:")
         T("C43 transition attributed to another actor", keys43, logs["mutex"], specs["mutex"],
           lambda t: sub_line(t, isC("MUTEX_WAIT"), lambda l: re.sub(r"^C (\d+)", lambda m: "C %d" % (int(m.group(1)) + 1), l)), "C43:actor:")
-        T("C43 times_considered of a RANDOM lost (truncated to 0)", keys43, C43_actor_log(bins, tmp), C43.DIRECTED[9][1],
+        T("C43 times_considered of a RANDOM lost (truncated to 0)", keys43, C43_actor_log(bins, tmp), C43.DIRECTED[10][1],
           lambda t: sub_line(t, lambda l: l.startswith("C ") and "| RANDOM " in l and not l.split()[2] == "0",
                              lambda l: re.sub(r"^C (\d+) \d+", r"C \1 0", l)), "C43:times:RANDOM")
         T("C43 COMM_IPROBE: tag decoded as 0", keys43, logs["iprobe"], specs["iprobe"],
@@ -181,7 +181,7 @@ def main():
 
 
 def C43_actor_log(bins, tmp):
-    res, log, txt = R.run_walk(bins, tmp, "st-actors", C43.DIRECTED[9][1], 5, 6, 30, 0, timeout=900)
+    res, log, txt = R.run_walk(bins, tmp, "st-actors", C43.DIRECTED[10][1], 5, 6, 30, 0, timeout=900)
     return txt
 
 
